@@ -2,6 +2,8 @@ package rules
 
 import (
 	"fmt"
+	"go/constant"
+	"go/token"
 	"go/types"
 	"strings"
 
@@ -254,6 +256,9 @@ func checkC15(p *core.Program, r *core.Report) {
 	// NormalizeSKI itself: removes spaces and dashes and lower-cases
 	checkNormalizer(p, r, R2)
 	r.Floor(R2, 6)
+	const R3 = "C15.R3 operations-take-effect-for-every-spelling"
+	r.Rule(R3, "RegisterRemoteSKI records trust on every path (shared with C10.R1): an early exit that depends on the raw spelling - e.g. a length check made before the SKI is normalised - silently ignores the label spelling of a SKI that the canonical spelling registers")
+	importRules(p, r, "C10", map[string]string{"C10.R1 dial-gate": R3}, func(key string) bool { return strings.Contains(key, "RegisterRemoteSKI") })
 }
 
 func checkNormalizer(p *core.Program, r *core.Report, R2 string) {
@@ -263,6 +268,7 @@ func checkNormalizer(p *core.Program, r *core.Report, R2 string) {
 		return
 	}
 	has := map[string]bool{}
+	mapEvaluated := false
 	core.EachInstr(fn, func(in ssa.Instruction) {
 		c := core.Common(in)
 		if c == nil {
@@ -277,10 +283,50 @@ func checkNormalizer(p *core.Program, r *core.Report, R2 string) {
 					has["rm"+k.ExactString()] = true
 				}
 			}
-		case "strings.NewReplacer", "strings.Map", "strings.Replace":
+		case "strings.Map":
+			// the mapping function is evaluated for every character a SKI spelling can contain
+			mf := core.ClosureArg(c.Args[0])
+			if mf == nil {
+				if f, ok := c.Args[0].(*ssa.Function); ok {
+					mf = f
+				}
+			}
+			if mf == nil || len(mf.Params) != 1 || len(mf.FreeVars) != 0 {
+				has["other"] = true
+				return
+			}
+			decided := true
+			okLower, okSpace, okDash := true, true, true
+			for ch := int64(0); ch < 128; ch++ {
+				out, ok := evalRuneFunc(mf, ch)
+				if !ok {
+					decided = false
+					break
+				}
+				switch {
+				case ch == ' ':
+					okSpace = okSpace && out < 0
+				case ch == '-':
+					okDash = okDash && out < 0
+				case ch >= 'A' && ch <= 'F':
+					okLower = okLower && out == ch-'A'+'a'
+				case (ch >= 'a' && ch <= 'f') || (ch >= '0' && ch <= '9'):
+					okLower = okLower && out == ch
+				}
+			}
+			if !decided {
+				has["other"] = true
+				return
+			}
+			mapEvaluated = true
+			has["lower"] = has["lower"] || okLower
+			has[`rm" "`] = has[`rm" "`] || okSpace
+			has[`rm"-"`] = has[`rm"-"`] || okDash
+		case "strings.NewReplacer", "strings.Replace":
 			has["other"] = true
 		}
 	})
+	_ = mapEvaluated
 	// result must derive from the parameter
 	for _, w := range []struct{ k, what string }{{"lower", "lower-cases"}, {`rm" "`, "removes spaces"}, {`rm"-"`, "removes dashes"}} {
 		key := "util.NormalizeSKI " + w.what
@@ -290,4 +336,136 @@ func checkNormalizer(p *core.Program, r *core.Report, R2 string) {
 			r.Fail(R2, key, p.Pos(fn.Pos()), "the canonicalisation no longer "+w.what+": spellings of one SKI map to different keys")
 		}
 	}
+}
+
+// evalRuneFunc evaluates a closed func(rune) rune on one argument by interpreting its SSA (integer arithmetic,
+// comparisons, boolean short-circuit phis, unicode.ToLower/ToUpper on ASCII). ok=false when the function uses
+// anything else.
+func evalRuneFunc(fn *ssa.Function, arg int64) (int64, bool) {
+	if len(fn.Blocks) == 0 {
+		return 0, false
+	}
+	env := map[ssa.Value]constant.Value{}
+	val := func(v ssa.Value) constant.Value {
+		if c, ok := v.(*ssa.Const); ok {
+			return c.Value
+		}
+		if _, ok := v.(*ssa.Parameter); ok {
+			return constant.MakeInt64(arg)
+		}
+		return env[v]
+	}
+	b := fn.Blocks[0]
+	var prev *ssa.BasicBlock
+	for steps := 0; steps < 400; steps++ {
+		var next *ssa.BasicBlock
+		for _, in := range b.Instrs {
+			switch x := in.(type) {
+			case *ssa.Phi:
+				found := false
+				for k, pr := range b.Preds {
+					if pr == prev {
+						env[x] = val(x.Edges[k])
+						found = true
+					}
+				}
+				if !found || env[x] == nil {
+					return 0, false
+				}
+			case *ssa.BinOp:
+				l, r := val(x.X), val(x.Y)
+				if l == nil || r == nil {
+					return 0, false
+				}
+				switch x.Op {
+				case token.EQL, token.NEQ, token.LSS, token.LEQ, token.GTR, token.GEQ:
+					env[x] = constant.MakeBool(constant.Compare(l, x.Op, r))
+				case token.ADD, token.SUB, token.MUL, token.AND, token.OR, token.XOR:
+					env[x] = constant.BinaryOp(l, x.Op, r)
+				default:
+					return 0, false
+				}
+			case *ssa.UnOp:
+				v := val(x.X)
+				if v == nil {
+					return 0, false
+				}
+				switch x.Op {
+				case token.NOT:
+					env[x] = constant.MakeBool(!constant.BoolVal(v))
+				case token.SUB:
+					env[x] = constant.UnaryOp(token.SUB, v, 0)
+				default:
+					return 0, false
+				}
+			case *ssa.Convert:
+				if v := val(x.X); v != nil {
+					env[x] = v
+				} else {
+					return 0, false
+				}
+			case *ssa.ChangeType:
+				if v := val(x.X); v != nil {
+					env[x] = v
+				} else {
+					return 0, false
+				}
+			case *ssa.Call:
+				v := constant.Value(nil)
+				if len(x.Call.Args) == 1 {
+					v = val(x.Call.Args[0])
+				}
+				iv, exact := int64(0), false
+				if v != nil {
+					iv, exact = constant.Int64Val(v)
+				}
+				if !exact || iv < 0 || iv > 127 {
+					return 0, false
+				}
+				switch core.CalleeName(&x.Call) {
+				case "unicode.ToLower":
+					if iv >= 'A' && iv <= 'Z' {
+						iv += 'a' - 'A'
+					}
+				case "unicode.ToUpper":
+					if iv >= 'a' && iv <= 'z' {
+						iv -= 'a' - 'A'
+					}
+				default:
+					return 0, false
+				}
+				env[x] = constant.MakeInt64(iv)
+			case *ssa.If:
+				c := val(x.Cond)
+				if c == nil || c.Kind() != constant.Bool {
+					return 0, false
+				}
+				if constant.BoolVal(c) {
+					next = b.Succs[0]
+				} else {
+					next = b.Succs[1]
+				}
+			case *ssa.Jump:
+				next = b.Succs[0]
+			case *ssa.Return:
+				if len(x.Results) != 1 {
+					return 0, false
+				}
+				v := val(x.Results[0])
+				if v == nil {
+					return 0, false
+				}
+				iv, exact := constant.Int64Val(v)
+				return iv, exact
+			case *ssa.DebugRef:
+			default:
+				return 0, false
+			}
+		}
+		if next == nil {
+			return 0, false
+		}
+		prev, b = b, next
+	}
+	return 0, false
 }
